@@ -25,6 +25,9 @@ package arch
 
 //@ func addCallInField
 //@ requires fullGraph.RelationList != nil
+//@ requires forall k string :: {k in fullGraph.RelationList} (k in fullGraph.RelationList) ==> (fullGraph.RelationList[k] != nil && Allocated(fullGraph.RelationList[k]))
+//@ ensures forall k string :: {k in fullGraph.RelationList} (k in fullGraph.RelationList) ==> (fullGraph.RelationList[k] != nil && Allocated(fullGraph.RelationList[k]))
+//@ loop 1 invariant forall k string :: {k in fullGraph.RelationList} (k in fullGraph.RelationList) ==> (fullGraph.RelationList[k] != nil && Allocated(fullGraph.RelationList[k]))
 //@ modifies fullGraph.RelationList
 //@ ensures forall k string :: {k in fullGraph.RelationList} (k in fullGraph.RelationList) <==> ((k in old(fullGraph.RelationList)) || FieldIn(src, clz.FunctionCalls, len(clz.FunctionCalls), k))
 //@ loop 1 invariant fullGraph.RelationList != nil
@@ -32,11 +35,17 @@ package arch
 
 //@ func addExtend
 //@ requires fullGraph.RelationList != nil
+//@ requires forall k string :: {k in fullGraph.RelationList} (k in fullGraph.RelationList) ==> (fullGraph.RelationList[k] != nil && Allocated(fullGraph.RelationList[k]))
+//@ ensures forall k string :: {k in fullGraph.RelationList} (k in fullGraph.RelationList) ==> (fullGraph.RelationList[k] != nil && Allocated(fullGraph.RelationList[k]))
 //@ modifies fullGraph.RelationList
 //@ ensures forall k string :: {k in fullGraph.RelationList} (k in fullGraph.RelationList) <==> ((k in old(fullGraph.RelationList)) || (clz.Extend != "" && EKey(src, clz.Extend) == k))
 
 //@ func addCallInMethod
 //@ requires fullGraph.RelationList != nil
+//@ requires forall k string :: {k in fullGraph.RelationList} (k in fullGraph.RelationList) ==> (fullGraph.RelationList[k] != nil && Allocated(fullGraph.RelationList[k]))
+//@ ensures forall k string :: {k in fullGraph.RelationList} (k in fullGraph.RelationList) ==> (fullGraph.RelationList[k] != nil && Allocated(fullGraph.RelationList[k]))
+//@ loop 1 invariant forall k string :: {k in fullGraph.RelationList} (k in fullGraph.RelationList) ==> (fullGraph.RelationList[k] != nil && Allocated(fullGraph.RelationList[k]))
+//@ loop 2 invariant forall k string :: {k in fullGraph.RelationList} (k in fullGraph.RelationList) ==> (fullGraph.RelationList[k] != nil && Allocated(fullGraph.RelationList[k]))
 //@ modifies fullGraph.RelationList
 //@ ensures forall k string :: {k in fullGraph.RelationList} (k in fullGraph.RelationList) <==> ((k in old(fullGraph.RelationList)) || MethIn(src, clz.Functions, identifiersMap, len(clz.Functions), k))
 //@ loop 1 invariant fullGraph.RelationList != nil
@@ -56,3 +65,6 @@ package arch
 //@ loop 2 invariant forall s string :: {s in (*fullGraph).NodeList} (s in (*fullGraph).NodeList) <==> (NodeIn(deps, #i1, s) || s == src)
 //@ loop 2 invariant forall k string :: {k in (*fullGraph).RelationList} {ImplIn(src, clz.Implements, #i, k)} (k in (*fullGraph).RelationList) <==>
 //@    (EdgeIn(deps, identifiersMap, #i1, k) || ImplIn(src, clz.Implements, #i, k))
+//@ ensures forall k string :: {k in (*result).RelationList} (k in (*result).RelationList) ==> ((*result).RelationList[k] != nil && Allocated((*result).RelationList[k]))
+//@ loop 1 invariant forall k string :: {k in (*fullGraph).RelationList} (k in (*fullGraph).RelationList) ==> ((*fullGraph).RelationList[k] != nil && Allocated((*fullGraph).RelationList[k]))
+//@ loop 2 invariant forall k string :: {k in (*fullGraph).RelationList} (k in (*fullGraph).RelationList) ==> ((*fullGraph).RelationList[k] != nil && Allocated((*fullGraph).RelationList[k]))
